@@ -62,7 +62,9 @@ Definition vol_shape_weak (O : oracles) (v : volume) : bool :=
 Definition volumes_wf_b (O : oracles) (strong : bool) (vs : list volume) : bool :=
   forallb (if strong then vol_shape_ok O else vol_shape_weak O) vs && nodupb (map v_mount vs).
 
-(* ---- queue ---- *)
+(* ---- queue ----
+   the queue exists (some object carries the name), is Open, is not root, and NO
+   queue object of the table, terminating (q_term) or not, names it as parent *)
 Definition queue_wf_b (qs : list queue) (qn : Z) : bool :=
   existsb (fun q => (q_name q =? qn) && (q_state q =? ST_OPEN)) qs &&
   negb (qn =? Q_ROOT) && forallb (fun q => negb (q_parent q =? qn)) qs.
